@@ -3,7 +3,8 @@
 import OQuPyVerif.Model.Proto
 import OQuPyVerif.Model.TimeGrid
 import OQuPyVerif.Generated.StepCount
-open OQuPyVerif OQuPyVerif.Proto OQuPyVerif.TimeGrid OQuPyVerif.Generated.StepCount
+import OQuPyVerif.Model.MfDynamics
+open OQuPyVerif OQuPyVerif.Proto OQuPyVerif.TimeGrid OQuPyVerif.Generated.StepCount OQuPyVerif.MfDynamics
 
 def rats (ws : List String) : Option (List Rat) := ws.mapM parseRat?
 
@@ -56,6 +57,32 @@ def step (line : String) : String :=
         else if api == "grad" then showRat (grad_label_final s dt n len)
         else "bad-op"
     | _, _, _ => "bad-op"
+  | "mfd" :: entries =>
+    -- each entry: time:field:state0,state1,…   (fields / states are integer tags)
+    let parsed := entries.mapM (fun e => match e.splitOn ":" with
+      | [t, f, sts] => match parseRat? t, parseInt? f, (sts.splitOn ",").mapM parseInt? with
+        | some t, some f, some sts => some (t, sts, f)
+        | _, _, _ => none
+      | _ => none)
+    match parsed with
+    | some hist =>
+      let s := hist.foldl (fun s (e : Rat × List Int × Int) => mfAdd s e.1 e.2.1 e.2.2) MfSt.empty
+      let sysS := " / ".intercalate (s.sys.map (fun d =>
+        showRats d.times ++ " # " ++ " ".intercalate (d.states.map toString)))
+      s!"{showRats s.times} | {" ".intercalate (s.fields.map toString)} | {sysS}"
+    | none => "bad-op"
+  | "dynadd" :: entries =>
+    let parsed := entries.mapM (fun e => match e.splitOn ":" with
+      | [t, x] => match parseRat? t, parseInt? x with
+        | some t, some x => some (t, x)
+        | _, _ => none
+      | _ => none)
+    match parsed with
+    | some hist =>
+      let d := hist.foldl (fun d (e : Rat × Int) =>
+        (dynRun e.1 e.2 OQuPyVerif.Generated.DynamicsAdd.dynamics_add_ops (d, 0)).1) (Dyn.empty : Dyn Int)
+      s!"{showRats d.times} | {" ".intercalate (d.states.map toString)}"
+    | none => "bad-op"
   | _ => "bad-op"
 
 def main : IO Unit := mainLoop step
